@@ -319,59 +319,84 @@ Proof.
     destruct i as [|i]; cbn in Hy; [inversion Hy; subst; exists y; cbn; auto|destruct (IH _ _ _ _ _ _ _ E2 Hy) as (x & A & B); exists x; auto].
 Qed.
 
+(* ---------- reusable pieces ---------- *)
+(* an awaited call always finds its owner *)
+Lemma find_owner_awaited c cid y sel e base hgt tnow na : forall l n j z,
+  nth_error l j = Some z -> In cid (awaits (l_pc z)) ->
+  find_owner c n l cid y sel e base hgt tnow na <> None.
+Proof.
+  induction l as [|w r IH]; intros n j z Hj Hin; [destruct j; discriminate|].
+  unfold find_owner; fold find_owner. destruct (lc_deliver c (l_info w) base hgt tnow (l_pc w) cid y sel e na) eqn:E; [discriminate|].
+  destruct j as [|j]; cbn in Hj; [|exact (IH _ j z Hj Hin)].
+  inversion Hj; subst w. exfalso. rewrite lc_deliver_shape in E.
+  destruct (lc_shape c (l_info z) base tnow (l_pc z) cid y) eqn:Es; [discriminate|].
+  clear -Hin Es. destruct (l_pc z); cbn [awaits] in Hin; unfold lc_shape in Es;
+    try (destruct Hin as [<-|[]]; rewrite Nat.eqb_refl in Es; cbn in Es; discriminate); try (destruct Hin; fail).
+  destruct w as [k0|k0 l|aw]; cbn [awaits] in Hin.
+  - destruct Hin as [<-|[]]. cbn in Es. rewrite Nat.eqb_refl in Es. cbn in Es. destruct y; discriminate.
+  - destruct Hin as [<-|[]]. cbn in Es. rewrite Nat.eqb_refl in Es. cbn in Es. destruct y as [| | | |[|? ?]| | | |]; try discriminate; destruct l; try discriminate; destruct k; discriminate.
+  - cbn in Es. assert (X : existsb (fun x => Nat.eqb (snd x) cid) aw = true).
+    { apply in_map_iff in Hin as ((pid & c0) & Hc & Hi). apply existsb_exists. exists (pid, c0). split; [exact Hi|]. cbn in *. subst. apply Nat.eqb_refl. }
+    rewrite X in Es. cbn in Es. destruct y; try (destruct k; discriminate). destruct (filter _ aw); [destruct k; discriminate|discriminate].
+Qed.
+
+(* the first HTLC of a set: a new lifecycle is spawned with its state fetch *)
+Definition spawn (s : sys) (h : htlc) (e1 : entry) : sys :=
+  {| nd := nd s;
+     pl := {| entry_ := Some e1;
+              lcs := lcs (pl s) ++ [{| l_pc := PFetch (length (calls s)); l_info := {| li_blob := blob h; li_deliver := deliver h; li_inv_amount := inv_amount h |} |}];
+              next_att := next_att (pl s) |};
+     calls := calls s ++ mk_calls [QListState]; now := now s; height := height s |}.
+
+Lemma spawn_lcs s h e1 i x :
+  nth_error (lcs (pl (spawn s h e1))) i = Some x ->
+  (nth_error (lcs (pl s)) i = Some x /\ (i < length (lcs (pl s)))%nat) \/ (i = length (lcs (pl s)) /\ l_pc x = PFetch (length (calls s))).
+Proof.
+  cbn [spawn pl lcs]. intros H0. destruct (Nat.lt_ge_cases i (length (lcs (pl s)))) as [Hlt|Hge].
+  - rewrite nth_error_app1 in H0 by exact Hlt. auto.
+  - rewrite nth_error_app2 in H0 by exact Hge. destruct (i - length (lcs (pl s)))%nat as [|k0] eqn:Ek; cbn in H0; [|destruct k0; discriminate].
+    inversion H0; subst. right. split; [lia|reflexivity].
+Qed.
+
+Lemma spawn_InvC c s h e1 : InvC c s -> InvC c (spawn s h e1).
+Proof.
+  intros [Ht Hd]. constructor.
+  - intros i x Hx. destruct (spawn_lcs s h e1 i x Hx) as [(Hx' & _)|(_ & Hp)]; cbn [spawn calls].
+    + apply (pc_calls_ok_mono c _ (calls s)); [|exact (Ht i x Hx')].
+      intros k _ q (st & Hq & Hl). exists st. split; [apply nth_app_l; exact Hq|exact Hl].
+    + rewrite Hp. cbn [pc_calls_ok]. apply has_call_new0.
+  - intros i j x y k Hne Hx Hy Hkx Hky.
+    destruct (spawn_lcs s h e1 i x Hx) as [(Hx' & Hi)|(Hi & Hpx)]; destruct (spawn_lcs s h e1 j y Hy) as [(Hy' & Hj)|(Hj & Hpy)].
+    + exact (Hd i j x y k Hne Hx' Hy' Hkx Hky).
+    + rewrite Hpy in Hky. cbn in Hky. destruct Hky as [<-|[]]. pose proof (pc_calls_ok_awaits_lt c _ _ _ (Ht i x Hx') _ Hkx). lia.
+    + rewrite Hpx in Hkx. cbn in Hkx. destruct Hkx as [<-|[]]. pose proof (pc_calls_ok_awaits_lt c _ _ _ (Ht j y Hy') _ Hky). lia.
+    + lia.
+Qed.
+
+
+
+Lemma spawn_InvU s h e1 : InvU s -> entry_ (pl s) = None -> InvU (spawn s h e1).
+Proof. unfold InvU. intros H E. rewrite E in H. cbn [spawn pl entry_ lcs]. rewrite n_att_app, H. reflexivity. Qed.
+
 Theorem step_InvC c s ev : InvC c s -> InvC c (fst (step c s ev)).
 Proof.
   intros HC. pose proof HC as [Ht Hd]. destruct ev; cbn [step].
   - (* EvHtlc *)
     destruct (entry_ (pl s)) as [e|] eqn:He.
-    + assert (HC1 : forall e1, InvC c {| nd := nd s; pl := {| entry_ := Some e1; lcs := lcs (pl s); next_att := next_att (pl s) |}; calls := calls s; now := now s; height := height s |})
-        by (intros e1; constructor; cbn; assumption).
-      destruct (find_select 0 (lcs (pl s))) as [[[i d] li]|] eqn:Hf; [|apply HC1].
-      destruct (find_select_spec _ _ _ _ _ Hf) as (x & Hx & Hp & Hli & _). rewrite Nat.sub_0_r in Hx. subst li.
-      match goal with |- InvC c (fst (let '(s2, o2) := apply_adv ?s1 ?i ?aa in _)) => assert (HA : InvC c (fst (apply_adv s1 i aa))) end.
-      { pose proof (select_poll_typed c (l_info x) (calls s) (length (calls s)) (height s) (now s) d (Some (e_handle c e h)) true (next_att (pl s)) eq_refl) as (T1 & T2 & T3).
-        match goal with |- InvC c (fst (apply_adv ?s1 ?i ?aa)) => pose proof (apply_adv_InvC c s1 i aa x (length (calls s)) (HC1 _) Hx) as G end.
-        cbn [calls with_calls] in G. rewrite set_status_oob in G by lia.
-        apply G.
-        - intros j y Hne Hy Hin. pose proof (pc_calls_ok_awaits_lt c _ _ _ (Ht j y Hy) _ Hin). lia.
-        - exact T1.
-        - intros k Hk. left. exact (T2 k Hk).
-        - rewrite T3. intros k []. }
-      match type of HA with InvC c (fst ?t) => destruct t as [s2 o2] end. exact HA.
-    + set (nl := {| l_pc := PFetch (length (calls s)); l_info := {| li_blob := blob h; li_deliver := deliver h; li_inv_amount := inv_amount h |} |}).
-      assert (HC1 : forall e1, InvC c {| nd := nd s; pl := {| entry_ := Some e1; lcs := lcs (pl s) ++ [nl]; next_att := next_att (pl s) |}; calls := calls s ++ mk_calls [QListState]; now := now s; height := height s |}).
-      { intros e1. constructor; cbn [pl lcs calls].
-        + intros i x Hx. destruct (Nat.lt_ge_cases i (length (lcs (pl s)))) as [Hlt|Hge].
-          * rewrite nth_error_app1 in Hx by exact Hlt. apply (pc_calls_ok_mono c _ (calls s)); [|exact (Ht i x Hx)].
-            intros k _ q (st & Hq & Hl). exists st. split; [apply nth_app_l; exact Hq|exact Hl].
-          * rewrite nth_error_app2 in Hx by exact Hge. destruct (i - length (lcs (pl s)))%nat as [|k]; cbn in Hx; [|destruct k; discriminate].
-            inversion Hx; subst. cbn [nl l_pc l_info pc_calls_ok]. apply has_call_new0.
-        + intros i j x y k Hne Hx Hy Hkx Hky.
-          assert (Old : forall i0 x0, nth_error (lcs (pl s) ++ [nl]) i0 = Some x0 ->
-                       (nth_error (lcs (pl s)) i0 = Some x0 /\ (i0 < length (lcs (pl s)))%nat) \/ (i0 = length (lcs (pl s)) /\ l_pc x0 = PFetch (length (calls s)))).
-          { intros i0 x0 H0. destruct (Nat.lt_ge_cases i0 (length (lcs (pl s)))) as [Hlt|Hge].
-            - rewrite nth_error_app1 in H0 by exact Hlt. auto.
-            - rewrite nth_error_app2 in H0 by exact Hge. destruct (i0 - length (lcs (pl s)))%nat as [|k0] eqn:Ek; cbn in H0; [|destruct k0; discriminate].
-              inversion H0; subst. right. split; [lia|reflexivity]. }
-          destruct (Old i x Hx) as [(Hx' & Hi)|(Hi & Hpx)]; destruct (Old j y Hy) as [(Hy' & Hj)|(Hj & Hpy)].
-          * exact (Hd i j x y k Hne Hx' Hy' Hkx Hky).
-          * rewrite Hpy in Hky. cbn in Hky. destruct Hky as [<-|[]]. pose proof (pc_calls_ok_awaits_lt c _ _ _ (Ht i x Hx') _ Hkx). lia.
-          * rewrite Hpx in Hkx. cbn in Hkx. destruct Hkx as [<-|[]]. pose proof (pc_calls_ok_awaits_lt c _ _ _ (Ht j y Hy') _ Hky). lia.
-          * lia. }
-      destruct (find_select 0 (lcs (pl s) ++ [nl])) as [[[i d] li]|] eqn:Hf; [|apply HC1].
-      destruct (find_select_spec _ _ _ _ _ Hf) as (x & Hx & Hp & Hli & _). rewrite Nat.sub_0_r in Hx. subst li.
-      match goal with |- InvC c (fst (let '(s2, o2) := apply_adv ?s1 ?i ?aa in _)) => assert (HA : InvC c (fst (apply_adv s1 i aa))) end.
-      { pose proof (select_poll_typed c (l_info x) (calls s ++ mk_calls [QListState]) (length (calls s ++ mk_calls [QListState])) (height s) (now s) d (Some (e_handle c (new_entry h) h)) true (next_att (pl s)) eq_refl) as (T1 & T2 & T3).
-        match goal with |- InvC c (fst (apply_adv ?s1 ?i ?aa)) => pose proof (apply_adv_InvC c s1 i aa x (length (calls s ++ mk_calls [QListState])) (HC1 _) Hx) as G end.
-        cbn [calls with_calls] in G. rewrite set_status_oob in G by lia.
-        apply G.
-        - intros j y Hne Hy Hin.
-          pose proof (ic_typed c _ (HC1 (e_handle c (new_entry h) h)) j y Hy) as Hty. cbn [calls] in Hty.
-          pose proof (pc_calls_ok_awaits_lt c _ _ _ Hty _ Hin). lia.
-        - exact T1.
-        - intros k Hk. left. exact (T2 k Hk).
-        - rewrite T3. intros k []. }
-      match type of HA with InvC c (fst ?t) => destruct t as [s2 o2] end. exact HA.
+    + constructor; cbn; assumption.
+    + exact (spawn_InvC c s h _ HC).
+  - (* EvPoll *)
+    destruct (find_select 0 (lcs (pl s))) as [[[i d] li]|] eqn:Hf; [|exact HC].
+    destruct (find_select_spec _ _ _ _ _ Hf) as (x & Hx & Hp & Hli & _). rewrite Nat.sub_0_r in Hx. subst li.
+    pose proof (select_poll_typed c (l_info x) (calls s) (length (calls s)) (height s) (now s) d (entry_ (pl s)) sel (next_att (pl s)) eq_refl) as (T1 & T2 & T3).
+    pose proof (apply_adv_InvC c s i (select_poll c (l_info x) (length (calls s)) (height s) (now s) d (entry_ (pl s)) sel (next_att (pl s))) x (length (calls s)) HC Hx) as G.
+    rewrite set_status_oob in G by lia.
+    assert (E : with_calls s (calls s) = s) by (destruct s; reflexivity). rewrite E in G.
+    apply G.
+    + intros j y Hne Hy Hin. pose proof (pc_calls_ok_awaits_lt c _ _ _ (Ht j y Hy) _ Hin). lia.
+    + exact T1.
+    + intros k Hk. left. exact (T2 k Hk).
+    + rewrite T3. intros k [].
   - (* EvProcess *)
     destruct (nth_error (calls s) cid) as [cl|] eqn:Hcl; [|exact HC]. destruct (c_st cl) eqn:Hst; try exact HC.
     destruct (node_exec (nd s) (c_rpc cl) f) as [n' y].
@@ -451,6 +476,14 @@ Qed.
 (* ---------- totality of ownership: every live call is awaited by some lifecycle (InvO) ---------- *)
 Definition InvO (s : sys) : Prop :=
   forall k cl, nth_error (calls s) k = Some cl -> live (c_st cl) -> exists i x, nth_error (lcs (pl s)) i = Some x /\ In k (awaits (l_pc x)).
+
+Lemma spawn_InvO s h e1 : InvO s -> InvO (spawn s h e1).
+Proof.
+  intros HO k cl Hk Hl. cbn [spawn calls pl lcs] in *. destruct (Nat.lt_ge_cases k (length (calls s))) as [Hlt|Hge].
+  - rewrite nth_error_app1 in Hk by exact Hlt. destruct (HO k cl Hk Hl) as (i & x & Hx & Hin). exists i, x. split; [apply nth_app_l; exact Hx|exact Hin].
+  - rewrite nth_error_app2 in Hk by exact Hge. destruct (k - length (calls s))%nat as [|k0] eqn:Ek; cbn in Hk; [|destruct k0; discriminate].
+    eexists (length (lcs (pl s))), _. split; [rewrite nth_error_app2 by lia; rewrite Nat.sub_diag; reflexivity|]. cbn. left. lia.
+Qed.
 
 (* the ids of the calls a shape issues are awaited by its new pc *)
 Lemma lc_shape_new_awaited c li base tnow p cid y sh p' cn :
@@ -620,57 +653,17 @@ Proof.
   intros HC HO. destruct ev; cbn [step].
   - (* EvHtlc *)
     destruct (entry_ (pl s)) as [e|] eqn:He.
-    + assert (HO1 : forall e1, InvO {| nd := nd s; pl := {| entry_ := Some e1; lcs := lcs (pl s); next_att := next_att (pl s) |}; calls := calls s; now := now s; height := height s |})
-        by (intros e1; exact HO).
-      assert (HC1 : forall e1, InvC c {| nd := nd s; pl := {| entry_ := Some e1; lcs := lcs (pl s); next_att := next_att (pl s) |}; calls := calls s; now := now s; height := height s |})
-        by (intros e1; destruct HC; constructor; cbn; assumption).
-      destruct (find_select 0 (lcs (pl s))) as [[[i d] li]|] eqn:Hf; [|apply HO1].
-      destruct (find_select_spec _ _ _ _ _ Hf) as (x & Hx & Hp & Hli & _). rewrite Nat.sub_0_r in Hx. subst li.
-      match goal with |- InvO (fst (let '(s2, o2) := apply_adv ?s1 ?i ?aa in _)) => assert (HA : InvO (fst (apply_adv s1 i aa))) end.
-      { match goal with |- InvO (fst (apply_adv ?s1 ?i ?aa)) => pose proof (apply_adv_InvO c s1 i aa x (length (calls s)) (HO1 _) (HC1 _) Hx) as G end.
-        cbn [calls with_calls] in G. rewrite set_status_oob in G by lia.
-        apply G.
-        - apply select_poll_new_awaited.
-        - rewrite Hp. intros k []. }
-      match type of HA with InvO (fst ?t) => destruct t as [s2 o2] end. exact HA.
-    + set (nl := {| l_pc := PFetch (length (calls s)); l_info := {| li_blob := blob h; li_deliver := deliver h; li_inv_amount := inv_amount h |} |}).
-      assert (HO1 : forall e1, InvO {| nd := nd s; pl := {| entry_ := Some e1; lcs := lcs (pl s) ++ [nl]; next_att := next_att (pl s) |}; calls := calls s ++ mk_calls [QListState]; now := now s; height := height s |}).
-      { intros e1 k cl Hk Hl. cbn [calls pl lcs] in *. destruct (Nat.lt_ge_cases k (length (calls s))) as [Hlt|Hge].
-        - rewrite nth_error_app1 in Hk by exact Hlt. destruct (HO k cl Hk Hl) as (i & x & Hx & Hin). exists i, x. split; [apply nth_app_l; exact Hx|exact Hin].
-        - rewrite nth_error_app2 in Hk by exact Hge. destruct (k - length (calls s))%nat as [|k0] eqn:Ek; cbn in Hk; [|destruct k0; discriminate].
-          exists (length (lcs (pl s))), nl. split; [rewrite nth_error_app2 by lia; rewrite Nat.sub_diag; reflexivity|]. cbn. left. lia. }
-      pose proof (step_InvC c s (EvHtlc h) HC) as HCs. cbn [step] in HCs. rewrite He in HCs. fold nl in HCs.
-      destruct (find_select 0 (lcs (pl s) ++ [nl])) as [[[i d] li]|] eqn:Hf; [|apply HO1].
-      destruct (find_select_spec _ _ _ _ _ Hf) as (x & Hx & Hp & Hli & _). rewrite Nat.sub_0_r in Hx. subst li.
-      assert (HC1 : forall e1, InvC c {| nd := nd s; pl := {| entry_ := Some e1; lcs := lcs (pl s) ++ [nl]; next_att := next_att (pl s) |}; calls := calls s ++ mk_calls [QListState]; now := now s; height := height s |}).
-      { intros e1. pose proof (step_InvC c {| nd := nd s; pl := {| entry_ := None; lcs := lcs (pl s); next_att := next_att (pl s) |}; calls := calls s; now := now s; height := height s |} (EvHtlc h)) as G.
-        cbn [step pl entry_ lcs calls nd now height next_att] in G. fold nl in G.
-        (* the typing of the state before the select! poll does not depend on the entry *)
-        clear -HC nl. destruct HC as [Ht Hd]. constructor; cbn [pl lcs calls].
-        + intros i x Hx. destruct (Nat.lt_ge_cases i (length (lcs (pl s)))) as [Hlt|Hge].
-          * rewrite nth_error_app1 in Hx by exact Hlt. apply (pc_calls_ok_mono c _ (calls s)); [|exact (Ht i x Hx)].
-            intros k _ q (st & Hq & Hl). exists st. split; [apply nth_app_l; exact Hq|exact Hl].
-          * rewrite nth_error_app2 in Hx by exact Hge. destruct (i - length (lcs (pl s)))%nat as [|k]; cbn in Hx; [|destruct k; discriminate].
-            inversion Hx; subst. cbn [nl l_pc l_info pc_calls_ok]. apply has_call_new0.
-        + intros i j x y k Hne Hx Hy Hkx Hky.
-          assert (Old : forall i0 x0, nth_error (lcs (pl s) ++ [nl]) i0 = Some x0 ->
-                       (nth_error (lcs (pl s)) i0 = Some x0 /\ (i0 < length (lcs (pl s)))%nat) \/ (i0 = length (lcs (pl s)) /\ l_pc x0 = PFetch (length (calls s)))).
-          { intros i0 x0 H0. destruct (Nat.lt_ge_cases i0 (length (lcs (pl s)))) as [Hlt|Hge].
-            - rewrite nth_error_app1 in H0 by exact Hlt. auto.
-            - rewrite nth_error_app2 in H0 by exact Hge. destruct (i0 - length (lcs (pl s)))%nat as [|k0] eqn:Ek; cbn in H0; [|destruct k0; discriminate].
-              inversion H0; subst. right. split; [lia|reflexivity]. }
-          destruct (Old i x Hx) as [(Hx' & Hi)|(Hi & Hpx)]; destruct (Old j y Hy) as [(Hy' & Hj)|(Hj & Hpy)].
-          * exact (Hd i j x y k Hne Hx' Hy' Hkx Hky).
-          * rewrite Hpy in Hky. cbn in Hky. destruct Hky as [<-|[]]. pose proof (pc_calls_ok_awaits_lt c _ _ _ (Ht i x Hx') _ Hkx). lia.
-          * rewrite Hpx in Hkx. cbn in Hkx. destruct Hkx as [<-|[]]. pose proof (pc_calls_ok_awaits_lt c _ _ _ (Ht j y Hy') _ Hky). lia.
-          * lia. }
-      match goal with |- InvO (fst (let '(s2, o2) := apply_adv ?s1 ?i ?aa in _)) => assert (HA : InvO (fst (apply_adv s1 i aa))) end.
-      { match goal with |- InvO (fst (apply_adv ?s1 ?i ?aa)) => pose proof (apply_adv_InvO c s1 i aa x (length (calls s ++ mk_calls [QListState])) (HO1 _) (HC1 _) Hx) as G end.
-        cbn [calls with_calls] in G. rewrite set_status_oob in G by lia.
-        apply G.
-        - apply select_poll_new_awaited.
-        - rewrite Hp. intros k []. }
-      match type of HA with InvO (fst ?t) => destruct t as [s2 o2] end. exact HA.
+    + exact HO.
+    + exact (spawn_InvO s h _ HO).
+  - (* EvPoll *)
+    destruct (find_select 0 (lcs (pl s))) as [[[i d] li]|] eqn:Hf; [|exact HO].
+    destruct (find_select_spec _ _ _ _ _ Hf) as (x & Hx & Hp & Hli & _). rewrite Nat.sub_0_r in Hx. subst li.
+    pose proof (apply_adv_InvO c s i (select_poll c (l_info x) (length (calls s)) (height s) (now s) d (entry_ (pl s)) sel (next_att (pl s))) x (length (calls s)) HO HC Hx) as G.
+    rewrite set_status_oob in G by lia.
+    assert (E : with_calls s (calls s) = s) by (destruct s; reflexivity). rewrite E in G.
+    apply G.
+    + apply select_poll_new_awaited.
+    + rewrite Hp. intros k [].
   - (* EvProcess *)
     destruct (nth_error (calls s) cid) as [cl|] eqn:Hcl; [|exact HO]. destruct (c_st cl) eqn:Hst; try exact HO.
     destruct (node_exec (nd s) (c_rpc cl) f) as [n' y]. cbn [fst]. intros k cl' Hk Hl. cbn [calls pl] in *.
@@ -727,67 +720,3 @@ Proof.
     revert Hl. apply not_live_final. destruct (c_st cl0); auto.
 Qed.
 
-(* ---------- reusable pieces ---------- *)
-(* an awaited call always finds its owner *)
-Lemma find_owner_awaited c cid y sel e base hgt tnow na : forall l n j z,
-  nth_error l j = Some z -> In cid (awaits (l_pc z)) ->
-  find_owner c n l cid y sel e base hgt tnow na <> None.
-Proof.
-  induction l as [|w r IH]; intros n j z Hj Hin; [destruct j; discriminate|].
-  unfold find_owner; fold find_owner. destruct (lc_deliver c (l_info w) base hgt tnow (l_pc w) cid y sel e na) eqn:E; [discriminate|].
-  destruct j as [|j]; cbn in Hj; [|exact (IH _ j z Hj Hin)].
-  inversion Hj; subst w. exfalso. rewrite lc_deliver_shape in E.
-  destruct (lc_shape c (l_info z) base tnow (l_pc z) cid y) eqn:Es; [discriminate|].
-  clear -Hin Es. destruct (l_pc z); cbn [awaits] in Hin; unfold lc_shape in Es;
-    try (destruct Hin as [<-|[]]; rewrite Nat.eqb_refl in Es; cbn in Es; discriminate); try (destruct Hin; fail).
-  destruct w as [k0|k0 l|aw]; cbn [awaits] in Hin.
-  - destruct Hin as [<-|[]]. cbn in Es. rewrite Nat.eqb_refl in Es. cbn in Es. destruct y; discriminate.
-  - destruct Hin as [<-|[]]. cbn in Es. rewrite Nat.eqb_refl in Es. cbn in Es. destruct y as [| | | |[|? ?]| | | |]; try discriminate; destruct l; try discriminate; destruct k; discriminate.
-  - cbn in Es. assert (X : existsb (fun x => Nat.eqb (snd x) cid) aw = true).
-    { apply in_map_iff in Hin as ((pid & c0) & Hc & Hi). apply existsb_exists. exists (pid, c0). split; [exact Hi|]. cbn in *. subst. apply Nat.eqb_refl. }
-    rewrite X in Es. cbn in Es. destruct y; try (destruct k; discriminate). destruct (filter _ aw); [destruct k; discriminate|discriminate].
-Qed.
-
-(* the first HTLC of a set: a new lifecycle is spawned with its state fetch *)
-Definition spawn (s : sys) (h : htlc) (e1 : entry) : sys :=
-  {| nd := nd s;
-     pl := {| entry_ := Some e1;
-              lcs := lcs (pl s) ++ [{| l_pc := PFetch (length (calls s)); l_info := {| li_blob := blob h; li_deliver := deliver h; li_inv_amount := inv_amount h |} |}];
-              next_att := next_att (pl s) |};
-     calls := calls s ++ mk_calls [QListState]; now := now s; height := height s |}.
-
-Lemma spawn_lcs s h e1 i x :
-  nth_error (lcs (pl (spawn s h e1))) i = Some x ->
-  (nth_error (lcs (pl s)) i = Some x /\ (i < length (lcs (pl s)))%nat) \/ (i = length (lcs (pl s)) /\ l_pc x = PFetch (length (calls s))).
-Proof.
-  cbn [spawn pl lcs]. intros H0. destruct (Nat.lt_ge_cases i (length (lcs (pl s)))) as [Hlt|Hge].
-  - rewrite nth_error_app1 in H0 by exact Hlt. auto.
-  - rewrite nth_error_app2 in H0 by exact Hge. destruct (i - length (lcs (pl s)))%nat as [|k0] eqn:Ek; cbn in H0; [|destruct k0; discriminate].
-    inversion H0; subst. right. split; [lia|reflexivity].
-Qed.
-
-Lemma spawn_InvC c s h e1 : InvC c s -> InvC c (spawn s h e1).
-Proof.
-  intros [Ht Hd]. constructor.
-  - intros i x Hx. destruct (spawn_lcs s h e1 i x Hx) as [(Hx' & _)|(_ & Hp)]; cbn [spawn calls].
-    + apply (pc_calls_ok_mono c _ (calls s)); [|exact (Ht i x Hx')].
-      intros k _ q (st & Hq & Hl). exists st. split; [apply nth_app_l; exact Hq|exact Hl].
-    + rewrite Hp. cbn [pc_calls_ok]. apply has_call_new0.
-  - intros i j x y k Hne Hx Hy Hkx Hky.
-    destruct (spawn_lcs s h e1 i x Hx) as [(Hx' & Hi)|(Hi & Hpx)]; destruct (spawn_lcs s h e1 j y Hy) as [(Hy' & Hj)|(Hj & Hpy)].
-    + exact (Hd i j x y k Hne Hx' Hy' Hkx Hky).
-    + rewrite Hpy in Hky. cbn in Hky. destruct Hky as [<-|[]]. pose proof (pc_calls_ok_awaits_lt c _ _ _ (Ht i x Hx') _ Hkx). lia.
-    + rewrite Hpx in Hkx. cbn in Hkx. destruct Hkx as [<-|[]]. pose proof (pc_calls_ok_awaits_lt c _ _ _ (Ht j y Hy') _ Hky). lia.
-    + lia.
-Qed.
-
-Lemma spawn_InvO s h e1 : InvO s -> InvO (spawn s h e1).
-Proof.
-  intros HO k cl Hk Hl. cbn [spawn calls pl lcs] in *. destruct (Nat.lt_ge_cases k (length (calls s))) as [Hlt|Hge].
-  - rewrite nth_error_app1 in Hk by exact Hlt. destruct (HO k cl Hk Hl) as (i & x & Hx & Hin). exists i, x. split; [apply nth_app_l; exact Hx|exact Hin].
-  - rewrite nth_error_app2 in Hk by exact Hge. destruct (k - length (calls s))%nat as [|k0] eqn:Ek; cbn in Hk; [|destruct k0; discriminate].
-    eexists (length (lcs (pl s))), _. split; [rewrite nth_error_app2 by lia; rewrite Nat.sub_diag; reflexivity|]. cbn. left. lia.
-Qed.
-
-Lemma spawn_InvU s h e1 : InvU s -> entry_ (pl s) = None -> InvU (spawn s h e1).
-Proof. unfold InvU. intros H E. rewrite E in H. cbn [spawn pl entry_ lcs]. rewrite n_att_app, H. reflexivity. Qed.
